@@ -129,13 +129,22 @@ def format_atoms(mapping: dict[str, str]) -> list[str]:
 
 
 def worker_b(shard, nshards, dialects, n):
-    res = {"evaluations": 0, "nontrivial": 0, "violations": {}, "samples": []}
+    res = {"evaluations": 0, "nontrivial": 0, "violations": {}, "samples": [], "distinct_mappings": 0}
+    seen_mappings = set()
     for dialect in dialects:
         d = Dialect.get_or_raise(dialect or None)
         for mname, mapping, trie in (("TIME_MAPPING", d.TIME_MAPPING, d.TIME_TRIE),
                                      ("INVERSE_TIME_MAPPING", d.INVERSE_TIME_MAPPING, d.INVERSE_TIME_TRIE)):
             if not mapping:
                 continue
+            # dialects that share a mapping (same keys and values) are enumerated once: format_time is a pure
+            # function of (string, mapping, trie) and the trie is built from the mapping by the metaclass
+            mkey = tuple(sorted(mapping.items()))
+            if mkey in seen_mappings and trie == new_trie_of(mapping):
+                continue
+            seen_mappings.add(mkey)
+            if shard == 0:
+                res["distinct_mappings"] += 1
             atoms = format_atoms(mapping)
             idx = 0
             for ln in range(1, n + 1):
@@ -161,6 +170,12 @@ def worker_b(shard, nshards, dialects, n):
                 res["samples"].append({"dialect": dialect or "base", "mapping": mname, "atoms": len(atoms)})
     res["violations"] = [(k, v) for k, v in res["violations"].items()]
     return res
+
+
+def new_trie_of(mapping):
+    from sqlglot.trie import new_trie
+
+    return new_trie(mapping)
 
 
 def mis_shape(combo, mapping):
@@ -237,6 +252,7 @@ def run(ctx: Ctx) -> None:
             "not_parsed_in_dialect": res["unparsed"],
             "format_strings": resb["evaluations"],
             "format_atoms_n": nb,
+            "distinct_time_mappings": resb.get("distinct_mappings", 0),
             "dialects": len(dialects),
             "violations_subsumed_by_smaller_tagset": dropped,
             "exhaustive": True,
